@@ -134,6 +134,27 @@ func (c20) Gen(seed uint64, tier string) json.RawMessage {
 		nb = r.Range(9, 14)
 	}
 	k := 0
+	if r.Chance(0.15) {
+		// a miner that a partial refund leaves dismissed with some stake still recorded, then touched again by
+		// its owner (change of account / further refund / add-stake), each transaction alone in its block
+		mi := r.Intn(4)
+		typ := byte(r.Intn(2))
+		stake, out := uint64(800), "500"
+		if typ == common.MinerTypeProposer {
+			stake, out = 2400, "1000"
+		}
+		p.Blocks = append(p.Blocks,
+			c20Block{Txs: []node.TxSpec{{K: "apply", From: 4 + mi, Miner: mi, MType: typ, Stake: stake, Salt: "dm-a"}}},
+			c20Block{Txs: []node.TxSpec{{K: "refund", From: 4 + mi, Miner: mi, Amount: out, Salt: "dm-r"}}})
+		switch r.Intn(3) {
+		case 0:
+			p.Blocks = append(p.Blocks, c20Block{Txs: []node.TxSpec{{K: "chacct", From: 4 + mi, Miner: mi, Acct: r.Intn(8), Salt: "dm-c"}}})
+		case 1:
+			p.Blocks = append(p.Blocks, c20Block{Txs: []node.TxSpec{{K: "refund", From: 4 + mi, Miner: mi, Amount: "100", Salt: "dm-r2"}}})
+		default:
+			p.Blocks = append(p.Blocks, c20Block{Txs: []node.TxSpec{{K: "addstake", From: 4 + mi, Miner: mi, Stake: 50, Salt: "dm-s"}}})
+		}
+	}
 	for b := 0; b < nb; b++ {
 		blk := c20Block{Restart: r.Chance(0.1)}
 		if r.Chance(0.15) {
@@ -402,6 +423,16 @@ func (c20) Exec(raw json.RawMessage, st *simrt.Stats, log *simrt.Log) *simrt.Vio
 					m.account = acc
 					m.block = bi
 					universe[common.HexToAddress(acc)] = true
+					// a change of account changes the account and nothing else of the record (judged when the
+					// transaction stands alone in its block)
+					if pst, err := middleware.AccountDBManagerInstance.GetAccountDBByHash(parentRoot); err == nil && len(txs) == 1 {
+						before := service.MinerManagerImpl.GetMinerById(common.FromHex(id), m.typ, pst)
+						after := service.MinerManagerImpl.GetMinerById(common.FromHex(id), m.typ, post)
+						if before != nil && after != nil && (before.Status != after.Status || before.Stake != after.Stake || before.Type != after.Type || before.ApplyHeight != after.ApplyHeight) {
+							return viol(bi, "record-changed-by-account-change", "change-account", "change-account of miner %s: status %d -> %d, stake %d -> %d, type %d -> %d, apply height %d -> %d", id[:10], before.Status, after.Status, before.Stake, after.Stake, before.Type, after.Type, before.ApplyHeight, after.ApplyHeight)
+						}
+						st.Probe("change_account_record_compared")
+					}
 				}
 			}
 		}
